@@ -54,7 +54,7 @@ func genSettings(t *rapid.T, label string) Settings {
 }
 
 func oneIn(t *rapid.T, n int, label string) bool {
-	return rapid.IntRange(0, n-1).Draw(t, label) == 0
+	return rapid.IntRange(0, n-1).Draw(t, label) == n-1 // shrinks towards false
 }
 
 func genScript(t *rapid.T, maxSessions, maxProducts int) Script {
@@ -71,14 +71,14 @@ func genScript(t *rapid.T, maxSessions, maxProducts int) Script {
 			pl := fmt.Sprintf("%s.p%d", l, j)
 			p := ProductPlan{}
 			switch rapid.IntRange(0, 9).Draw(t, pl+".fault") {
-			case 0:
+			case 7:
 				p.FillFail = true
-			case 1:
+			case 8:
 				p.CtorFail = true
-			case 2:
+			case 9:
 				p.FacFail = true
 			}
-			p.Mutate = rapid.IntRange(0, 2).Draw(t, pl+".mutate") == 0
+			p.Mutate = rapid.IntRange(0, 2).Draw(t, pl+".mutate") == 2
 			se.Products = append(se.Products, p)
 		}
 		sc.Sessions = append(sc.Sessions, se)
